@@ -254,7 +254,7 @@ def eval_case(case, drv):
     # model
     import xgcm.padding as xp
     conn_axes = xp._get_all_connection_axes({"face": fg.fc_arg(tbl)["face"]}, "face")
-    pad_axes = list(set(conn_axes + [case["axis"]]))
+    pad_axes = [a for a in ("X", "Y") if a in (conn_axes + [case["axis"]])]     # the grid's own axis order (not a set's)
     data4 = fg.canon_faces(da, "xc", "yc")
     R = data4.shape[3]
     line = (f"c03op {case['func']} center {case['to']} {case['axis']} X Y {fg.enc_table(tbl)} "
